@@ -93,7 +93,7 @@ def result_to_choi(res, shape):
     pairs, form = ch.pairs_from_result(res)
     for A, B in pairs:
         if A.shape != (o_r, i_r) or B.shape != (o_c, i_c):
-            raise ValueError(f"operator shapes {A.shape},{B.shape} != ({o_r},{i_r}),({o_c},{i_c})")
+            raise ValueError("operator shapes are not (out_r x in_r) for the left and (out_c x in_c) for the right operators")
     return ch.choi_pairs(pairs), form, len(pairs)
 
 
@@ -135,7 +135,7 @@ def rank1_check(case):
             if exc is not None:
                 return viol(f"apply_channel raised on rank-1 {form} form, X={name}: " + exc_text(exc), site=f"apply_channel:{form}:exception")
             if not ch.close(got, exp):
-                return viol(f"apply_channel({name}, {form}) != A X B^dagger", site=f"apply_channel:{form}", observed=np.asarray(got), expected=exp)
+                return viol(f"apply_channel(X, {form} form) != A X B^dagger for X={name}", site=f"apply_channel:{form}", observed=np.asarray(got), expected=exp)
     got, exc = call(kraus_to_choi, [[A.copy(), B.copy()]])
     calls += 1
     if exc is not None:
@@ -165,7 +165,7 @@ def rank1_check(case):
                 if exc is not None:
                     return viol(f"apply_channel raised on {form} form: " + exc_text(exc), site=f"apply_channel:{form}:exception")
                 if not ch.close(got, ch.apply_pairs(pairs, X)):
-                    return viol(f"apply_channel({name}, {form}) != K X K^dagger", site=f"apply_channel:{form}", observed=np.asarray(got))
+                    return viol(f"apply_channel(X, {form} form) != K X K^dagger for X={name}", site=f"apply_channel:{form}", observed=np.asarray(got))
             got, exc = call(kraus_to_choi, ch.to_form(pairs, form))
             calls += 1
             if exc is not None:
@@ -306,7 +306,7 @@ def forms_check(case):
         if exc is not None:
             return viol(f"apply_channel raised ({form} form, X={name}): " + exc_text(exc), site=f"apply_channel:{form}:exception")
         if not ch.close(got, exp):
-            return viol(f"apply_channel({name}, {form}) != sum_t A_t X B_t^dagger", site=f"apply_channel:{form}",
+            return viol(f"apply_channel(X, {form} form) != sum_t A_t X B_t^dagger for X={name}", site=f"apply_channel:{form}",
                         observed=np.asarray(got), expected=exp)
         last = got
     if form != "choi":
@@ -433,7 +433,7 @@ def c2k_check(case):
                     observed=J2, expected=J)
     herm, psd, safe = _classify(J)
     rk, rk_safe = _rank_with_margin(J, 1e-9)
-    if safe and psd and form not in ("flat", "empty"):
+    if safe and psd and (o_r, i_r) == (o_c, i_c) and form not in ("flat", "empty"):
         return viol(f"completely positive map (PSD Choi matrix) not returned as a single flat list but as '{form}'", site="choi_to_kraus:cp_flat")
     if rk_safe and cnt != rk:
         return viol(f"number of Kraus operators {cnt} != rank {rk} of the Choi matrix (tol=1e-9 cut)", site="choi_to_kraus:count",
@@ -709,7 +709,7 @@ def partial_check(case):
     if R * C <= limit:
         for r_ in range(R):
             for c_ in range(C):
-                for sc in (1, 1j):
+                for sc in (1,):  # i-multiples are covered by the complex labelled rho above
                     rho = ch.unit(R, C, r_, c_, sc)
                     exp = ch.partial_apply(rho, fn, rdims, cdims, pos, o_r, o_c)
                     got, exc = run(rho, "2row")
